@@ -132,6 +132,11 @@ func mergeAndValidateOIDCConfigs(cfg *configv1.Config) error {
 				continue
 			}
 
+			// A filter without any type set has nothing to merge; the final validation rejects it.
+			if f.GetOidc() == nil && f.GetOidcOverride() == nil {
+				continue
+			}
+
 			// Merge the OIDC overrides and populate the normal OIDC field instead so that
 			// consumers of the config always have an up-to-date object
 			if f.GetOidcOverride() != nil {
